@@ -62,6 +62,23 @@ def c01(ctx):
         spec_vs_impl(ctx, [(100, [a, b, Z, ONE, m], 50, [rc, m, T(a), T(b)])
                            for a, b in pairs for m in mrts_grid(g)[:3] for rc in ((False, True) if m != Z else (False,))],
                      "isi_profile == isi_spec")
+    # the same profile through the list forms (list of two; longer list + index pair): MRTS must arrive
+    for pairs, g in pairs_for(ctx, limit_ex=900, n_rand=300):
+        cases = []
+        for k, (a, b) in enumerate(pairs):
+            m = mrts_grid(g)[k % 3]
+            cases.append((60, [k % 4 == 1, m, [T(a), T(b)], None]))
+            cases.append((60, [False, m, [T(b), T(a), T(b)], [Nat(1), Nat(0)]]))
+        ctx.corr(cases, lambda rid, x: sum(len(t[0]) for t in x[2]) >= 2)
+    rnd, g = ctx.space.random_pairs(n=400)
+    for k, (a, b) in enumerate(ctx.part(rnd)):
+        kw = ctx.impl.kw(False, mrts_grid(g)[k % 3])
+        try:
+            f = ctx.ps.isi_profile(ctx.impl.train(T(a)), ctx.impl.train(T(b)), **kw)
+        except Exception as e:      # noqa
+            ctx.violate("isi_profile raises", "isi_profile", [T(a), T(b)], got=repr(e))
+            continue
+        profile_eval_oracle(ctx, "isi_profile", f, (f.x, f.y), False, [T(a), T(b), kw])
     # shifted / scaled interval so that t_start != 0
     cases = []
     rnd, g = ctx.space.random_pairs(n=300)
@@ -101,6 +118,44 @@ def core_enc(v):
     return v
 
 
+def profile_eval_oracle(ctx, what, f, arrays, linear, args):
+    """"at every time t the profile equals the definition": the profile object's own evaluation
+    f(t) and f([t, ...]) against its arrays (which the correspondence ties to the definition) at
+    times 2^-30 and 2^-12 beside every breakpoint, on breakpoints and in the middle of pieces"""
+    xs = [float(x) for x in arrays[0]]
+    ev = eval_pwl if linear else eval_pwc
+    ts = []
+    for k, x in enumerate(xs):
+        for d in (2.0 ** -30, 2.0 ** -12):
+            if k + 1 < len(xs) and x + d < xs[k + 1]:
+                ts.append(x + d)
+            if k > 0 and x - d > xs[k - 1]:
+                ts.append(x - d)
+    ts += sample_times(xs)
+    if not ts:
+        return
+    try:
+        single = [float(f(t)) for t in ts]
+        many = [float(v) for v in f(ts)]
+        twice = [float(v) for v in f([ts[0], ts[0]] + ts[:2])]
+    except Exception as e:      # noqa
+        ctx.violate(what + ": evaluation raises", "profile.__call__", args, got=repr(e))
+        return
+    ctx.check(len(ts))
+    for t, a, b in zip(ts, single, many):
+        e = ev(arrays, t)
+        if e is None:
+            continue
+        if abs(a - e) > 1e-9 or abs(b - e) > 1e-9:
+            ctx.violate(what + ": f(t) differs from the piece it lies in", "profile.__call__", args,
+                        expected=e, got=[a, b], t=t)
+            return
+    if abs(twice[0] - single[0]) > 1e-12 or abs(twice[1] - single[0]) > 1e-12:
+        ctx.violate(what + ": a repeated time in a list evaluates differently", "profile.__call__", args,
+                    expected=single[0], got=twice[:2], t=ts[0])
+
+
+
 # ---------------------------------------------------------------------------
 @prop("C02")
 def c02(ctx):
@@ -116,6 +171,24 @@ def c02(ctx):
         spec_vs_impl(ctx, [(101, [a, b, Z, ONE, m, ri], 51, [False, m, ri, T(a), T(b)])
                            for a, b in pairs for m in mrts_grid(g)[:2] for ri in (False, True)],
                      "spike_profile == spike_spec (definition at all one-sided limits)")
+    # the same profile through the list forms (list of two; longer list + index pair): RI and MRTS must arrive
+    for pairs, g in pairs_for(ctx, limit_ex=900, n_rand=300):
+        cases = []
+        for k, (a, b) in enumerate(pairs):
+            m, ri = mrts_grid(g)[k % 3], k % 2 == 0
+            cases.append((61, [k % 4 == 1, m, ri, [T(a), T(b)], None]))
+            cases.append((61, [False, m, ri, [T(b), T(a), T(b)], [Nat(1), Nat(0)]]))
+        ctx.corr(cases, lambda rid, x: sum(len(t[0]) for t in x[3]) >= 2)
+    # evaluation at every time: f(t), f([t..]) beside breakpoints and inside pieces
+    rnd, g = ctx.space.random_pairs(n=400)
+    for k, (a, b) in enumerate(ctx.part(rnd)):
+        kw = ctx.impl.kw(False, mrts_grid(g)[k % 3], k % 2 == 0)
+        try:
+            f = ctx.ps.spike_profile(ctx.impl.train(T(a)), ctx.impl.train(T(b)), **kw)
+        except Exception as e:      # noqa
+            ctx.violate("spike_profile raises", "spike_profile", [T(a), T(b)], got=repr(e))
+            continue
+        profile_eval_oracle(ctx, "spike_profile", f, (f.x, f.y1, f.y2), True, [T(a), T(b), kw])
     # helpers
     r = ctx.rng
     cases = []
@@ -179,6 +252,11 @@ def c03(ctx):
         ctx.corr(sync_cases(pairs, g, (6, 7)), pair_nt)
         ctx.corr([(52, [rc, mt, m, T(a), T(b)]) for a, b in pairs
                   for m in mrts_grid(g)[:2] for mt in maxtau_grid(g)[:2] for rc in (False, True)], pair_nt)
+        # the per-spike indicator as the filter uses it: MRTS and max_tau must reach the backend
+        # (two-train lists and a third train made of the spikes the two do not share)
+        ctx.corr([(70, [False, mt, m, thr, [T(a), T(b)] + ([T(sorted(set(a) ^ set(b)))] if k % 3 == 0 else [])])
+                  for k, (a, b) in enumerate(pairs[::3]) for m in (Z, Fr(6, g), Fr(2)) for mt in maxtau_grid(g)[:2]
+                  for thr in (Z, Fr(1, 2))], lambda rid, x: sum(len(t[0]) for t in x[4]) >= 2)
         spec_vs_impl(ctx, [(102, [a, b, Z, ONE, mt, m], 6, [a, b, Z, ONE, mt, m])
                            for a, b in pairs for m in mrts_grid(g)[:3] for mt in maxtau_grid(g)],
                      "coincidence profile == pairwise definition")
@@ -306,6 +384,25 @@ def c04(ctx):
             if not (isinstance(Fv, float) and abs(Fv - exp) < 1e-9):
                 ctx.violate("synfire indicator != 2*triu(D)/((N-1)*spikes)", "spike_train_order",
                             [mt, m, TL], expected=exp, got=Fv)
+        # the same relation with MRTS='auto', for the whole list and for a selection: the scalar and
+        # the matrix must resolve the automatic threshold in the same way
+        sts = ctx.impl.trains(TL)
+        for sel in [None] + ([sorted(r.sample(range(n), n - 1))] if n >= 3 else []):
+            kwa = dict(MRTS='auto', max_tau=float(mt))
+            if sel is not None:
+                kwa['indices'] = sel
+            Fa = core.call_impl(lambda: ctx.ps.spike_train_order(sts, **kwa))
+            Ma = core.call_impl(lambda: ctx.ps.spike_directionality_matrix(sts, normalize=False, **kwa))
+            ctx.check()
+            ks = list(range(n)) if sel is None else sel
+            ns = sum(len(L[i]) for i in ks)
+            if isinstance(Ma, core.Err) or isinstance(Fa, core.Err):
+                ctx.violate("MRTS='auto': order / directionality matrix raises", "spike_train_order", [mt, TL, sel], got=[Fa, Ma])
+            elif ns > 0 and len(ks) >= 2:
+                exp = 2.0 * sum(Ma[i][j] for i in range(len(ks)) for j in range(i + 1, len(ks))) / ((len(ks) - 1) * ns)
+                if not (isinstance(Fa, float) and abs(Fa - exp) < 1e-9):
+                    ctx.violate("MRTS='auto': synfire indicator != 2*triu(D)/((N-1)*spikes)", "spike_train_order",
+                                [mt, TL, sel], expected=exp, got=Fa)
         # values: sum over a train's values * (N-1) = row sum of D
         V = ctx.call(73, [False, mt, m, TL, None])
         ctx.check()
@@ -616,6 +713,44 @@ def c06(ctx):
                 y = [v[1:-1] for v in y]          # edge entries never count
             if not feq(x, y):
                 ctx.violate("result depends on list order (perm %r)" % perm, str(rid), a1, expected=x, got=y, rid=rid)
+        # the same aggregates over a sub-interval, SPIKE-Sync with max_tau as well
+        iv = r.choice(intervals_for(r, gg)[1:])
+        cases += [(64, [False, m, iv, TL, None]), (65, [False, m, ri, iv, TL, None]), (66, [False, mt, m, iv, TL, None]),
+                  (67, [False, m, iv, TL, None]), (68, [False, m, ri, iv, TL, None]), (69, [False, mt, m, iv, TL, None])]
+        for what, rid_d, args_d, rid_b, mk_b in (
+                ("isi", 64, [False, m, iv, TL, None], 54, lambda a, b: [False, m, iv, a, b]),
+                ("spike", 65, [False, m, ri, iv, TL, None], 55, lambda a, b: [False, m, ri, iv, a, b])):
+            D = ctx.call(rid_d, args_d)
+            ds = [ctx.call(rid_b, mk_b(TL[i], TL[j])) for i, j in prs]
+            ctx.check()
+            if not (isinstance(D, float) and all(isinstance(d, float) for d in ds) and core.close(D, sum(ds) / len(ds))):
+                ctx.violate("%s multi distance over an interval != mean of pair distances" % what, str(rid_d), args_d,
+                            expected=ds, got=D, rid=rid_d)
+        M = ctx.call(69, [False, mt, m, iv, TL, None])
+        ctx.check()
+        okM = not isinstance(M, core.Err)
+        if okM:
+            for (i, j) in prs:
+                d = ctx.call(56, [False, mt, m, iv, TL[i], TL[j]])
+                if not (isinstance(d, float) and core.close(M[i][j], d) and core.close(M[j][i], d)):
+                    okM = False
+        if not okM:
+            ctx.violate("sync matrix over an interval (max_tau given) != bivariate values", "69",
+                        [False, mt, m, iv, TL, None], got=M, rid=69)
+        # MRTS='auto': the multivariate distance is the mean of the pair distances at the threshold pooled over the list
+        sts = ctx.impl.trains(TL)
+        from pyspike.isi_lengths import default_thresh
+        auto = core.call_impl(lambda: float(default_thresh(sts)))
+        if isinstance(auto, float):
+            for name, f in (("isi_distance", ctx.ps.isi_distance), ("spike_distance", ctx.ps.spike_distance)):
+                Da = core.call_impl(lambda: float(f(sts, MRTS='auto')))
+                Pa = core.call_impl(lambda: float(getattr(ctx.ps, name.replace("distance", "profile"))(sts, MRTS='auto').avrg()))
+                dsa = [core.call_impl(lambda: float(f(sts[i], sts[j], MRTS=auto))) for i, j in prs]
+                ctx.check()
+                if not (isinstance(Da, float) and isinstance(Pa, float) and all(isinstance(d, float) for d in dsa)
+                        and core.close(Da, sum(dsa) / len(dsa)) and core.close(Da, Pa)):
+                    ctx.violate("%s(list, MRTS='auto') != mean of the pair distances at the pooled threshold / != average "
+                                "of the 'auto' multivariate profile" % name, name, [TL], expected=[dsa, Pa], got=Da)
     ctx.corr(cases, lambda rid, a: sum(len(t[0]) for t in a[-2]) >= 3)
 
 
@@ -684,6 +819,72 @@ def c07(ctx):
             if not (isinstance(ds, float) and abs(ds) < 1e-12):
                 ctx.violate("directionality of a train with itself != 0", "spike_directionality", [mt, m, A, A], got=ds)
         ctx.corr(cases, pair_nt)
+    # the axioms with MRTS='auto' on degenerate input (empty, one spike, edge spikes): finite, in range,
+    # symmetric, identity
+    deg = [[], [Z], [ONE], [Fr(1, 2)], [Z, ONE], [Z, Fr(1, 4)], [Fr(3, 4), ONE], [Fr(1, 8), Fr(1, 2), Fr(7, 8)]]
+    ps = ctx.ps
+    for a in ctx.part(deg):
+        for b in deg:
+            A, B = ctx.impl.train(T(a)), ctx.impl.train(T(b))
+            for nm, f, ident in (("isi_distance", ps.isi_distance, 0.0), ("spike_distance", ps.spike_distance, 0.0),
+                                 ("spike_sync", ps.spike_sync, 1.0)):
+                for kwa in (dict(MRTS='auto'), dict(MRTS='auto', interval=(0.25, 0.75))) + \
+                        ((dict(MRTS='auto', RI=True),) if nm == "spike_distance" else ()):
+                    v = core.call_impl(lambda: float(f(A, B, **kwa)))
+                    w = core.call_impl(lambda: float(f(B, A, **kwa)))
+                    i_ = core.call_impl(lambda: float(f(A, A.copy(), **kwa)))
+                    ctx.check()
+                    ctx.nontrivial(("c07auto", nm, core.enc([a, b]), repr(sorted(kwa))))
+                    if not (isinstance(v, float) and core.all_finite(v) and -1e-12 <= v <= 1 + 1e-12):
+                        ctx.violate("%s with MRTS='auto' outside [0,1] / not finite" % nm, nm, [T(a), T(b), repr(kwa)], got=v)
+                    elif not (isinstance(w, float) and core.close(v, w)):
+                        ctx.violate("%s with MRTS='auto' not symmetric" % nm, nm, [T(a), T(b), repr(kwa)], expected=v, got=w)
+                    if not (isinstance(i_, float) and abs(i_ - ident) < 1e-12):
+                        ctx.violate("%s with MRTS='auto': identity" % nm, nm, [T(a), T(a), repr(kwa)], expected=ident, got=i_)
+    # the axioms through matrices and index selections: a pair picked out of a longer list (any order,
+    # not a prefix) gets the value of that pair; an equal copy at another position counts as identical
+    lists, g = ctx.space.random_lists(n=120 if ctx.tier == "quick" else 1500)
+    for L in ctx.part(lists):
+        L = list(L) + [list(L[0])]
+        n = len(L)
+        TL = [T(x) for x in L]
+        sel = r.sample(range(n), r.randint(2, n))
+        if 0 in sel and (n - 1) not in sel:
+            sel.append(n - 1)
+        nsel = [Nat(i) for i in sel]
+        m = r.choice(mrts_grid(g)[:3])
+        mt = r.choice(maxtau_grid(g))
+        ri = r.random() < 0.5
+        iv = r.choice(intervals_for(r, g, 1))
+        for nm, rid, args, rid_b, mk, ident in (
+                ("isi", 67, [False, m, iv, TL, nsel], 54, lambda a, b: [False, m, iv, a, b], 0.0),
+                ("spike", 68, [False, m, ri, iv, TL, nsel], 55, lambda a, b: [False, m, ri, iv, a, b], 0.0),
+                ("sync", 69, [False, mt, m, iv, TL, nsel], 56, lambda a, b: [False, mt, m, iv, a, b], 1.0)):
+            M = ctx.call(rid, args)
+            ctx.check()
+            ctx.nontrivial(("c07m", rid, core.enc(args)))
+            if isinstance(M, core.Err):
+                ctx.violate("%s matrix raises" % nm, str(rid), args, got=M, rid=rid)
+                continue
+            for p_ in range(len(sel)):
+                for q_ in range(len(sel)):
+                    v = M[p_][q_]
+                    if not (core.all_finite(v) and -1e-12 <= v <= 1 + 1e-12 and core.close(v, M[q_][p_])):
+                        ctx.violate("%s matrix entry outside [0,1] / not symmetric" % nm, str(rid), args, got=M, rid=rid)
+                        break
+                    if p_ != q_:
+                        d = ctx.call(rid_b, mk(TL[sel[p_]], TL[sel[q_]]))
+                        if not (isinstance(d, float) and core.close(v, d)):
+                            ctx.violate("%s matrix entry [%d][%d] != value of the selected pair" % (nm, p_, q_), str(rid), args,
+                                        expected=d, got=v, rid=rid)
+                            break
+                        if L[sel[p_]] == L[sel[q_]] and abs(v - ident) > 1e-12:
+                            ctx.violate("%s matrix: equal copies at two positions are not at identity value" % nm, str(rid),
+                                        args, expected=ident, got=v, rid=rid)
+                            break
+                    elif abs(v - ident) > 1e-12:
+                        ctx.violate("%s matrix diagonal" % nm, str(rid), args, expected=ident, got=v, rid=rid)
+                        break
 
 
 # ---------------------------------------------------------------------------
@@ -768,6 +969,73 @@ def c08(ctx):
                 if not ok:
                     ctx.violate("mirror relation fails for %s" % key, str(rid), a2, expected=v0, got=v, rid=rid,
                                 base_args=core.enc(args))
+    # the same relations for lists of trains (multivariate profiles and values) and with MRTS='auto'
+    # (the automatic threshold moves with the time axis and is the same for the reflected list)
+    lists, g = ctx.space.random_lists(n=150 if ctx.tier == "quick" else 2000)
+    ps = ctx.ps
+    q = ctx.impl._quiet
+    for L in ctx.part(lists):
+        L = [sorted(set(t + ([Z] if r.random() < 0.25 else []) + ([ONE] if r.random() < 0.25 else []))) for t in L]
+        TL = [T(t) for t in L]
+        m = r.choice(mrts_grid(g)[:3])
+        mt = r.choice(maxtau_grid(g))
+        ri = r.random() < 0.5
+        c = Fr(r.choice([-8, -3, 5, 32]), r.choice([1, 4]))
+        k = Fr(r.choice([2, 4, 8, 64]), r.choice([1, 4, 16]))
+        ctx.nontrivial(("c08l", core.enc(TL), m, mt, ri))
+        xfs = (("shift %s" % c, lambda x: x + c, Fr(1), False), ("scale %s" % k, lambda x: x * k, k, False),
+               ("mirror", lambda x: 1 - x, Fr(1), True))
+        for key, rid, pre, kind in (("isi", 60, [False, m], "pwc"), ("spike", 61, [False, m, ri], "pwl"),
+                                    ("sync", 62, [False, mt, m], "df"), ("order", 63, [False, mt, m], "dfneg"),
+                                    ("dI", 64, [False, m, None], "v"), ("dS", 65, [False, m, ri, None], "v"),
+                                    ("sy", 66, [False, mt, m, None], "v"), ("F", 72, [False, True, mt, m], "vneg")):
+            v0 = ctx.call(rid, pre + [TL, None])
+            for nm, f, km, rev in xfs:
+                TL2 = [[sorted(f(x) for x in t[0]), min(f(t[1]), f(t[2])), max(f(t[1]), f(t[2]))] for t in TL]
+                pre2 = [km * x if isinstance(x, Fr) else x for x in pre]
+                v = ctx.call(rid, pre2 + [TL2, None])
+                ctx.check()
+                if isinstance(v0, core.Err) or isinstance(v, core.Err):
+                    ok = False
+                elif kind in ("v", "vneg"):
+                    ok = feq(v, -v0 if (rev and kind == "vneg") else v0)
+                    if rev and kind == "vneg" and not any(t for t in L):
+                        ok = True       # all-empty input: known finding F13 (reported by the pair oracle above)
+                else:
+                    ex = [float(f(Fr(x))) for x in v0[0]]
+                    if not rev:
+                        ok = feq(v[0], ex) and feq(v[1:], v0[1:])
+                    elif kind == "pwc":
+                        ok = feq(v[0], ex[::-1]) and feq(v[1], v0[1][::-1])
+                    elif kind == "pwl":
+                        ok = feq(v[0], ex[::-1]) and feq(v[1], v0[2][::-1]) and feq(v[2], v0[1][::-1])
+                    elif kind == "df":
+                        ok = feq(v[0], ex[::-1]) and feq(v[1][1:-1], v0[1][1:-1][::-1]) and feq(v[2][1:-1], v0[2][1:-1][::-1])
+                    else:
+                        ok = feq(v[0], ex[::-1]) and feq(v[1][1:-1], [-y for y in v0[1][1:-1][::-1]]) and \
+                            feq(v[2][1:-1], v0[2][1:-1][::-1])
+                if not ok:
+                    ctx.violate("%s relation fails for the multivariate %s" % (nm, key), str(rid), pre2 + [TL2, None],
+                                expected=v0, got=v, rid=rid, base_args=core.enc(pre + [TL, None]))
+        # MRTS='auto': scalars unchanged by shift / scale / mirror (order value negated by the mirror)
+        sts = ctx.impl.trains(TL)
+        for nm, f, km, rev in xfs:
+            sts2 = ctx.impl.trains([[sorted(f(x) for x in t[0]), min(f(t[1]), f(t[2])), max(f(t[1]), f(t[2]))] for t in TL])
+            for name, fn, neg in (("isi_distance", ps.isi_distance, False), ("spike_distance", ps.spike_distance, False),
+                                  ("spike_sync", ps.spike_sync, False), ("spike_train_order", ps.spike_train_order, True)):
+                forms = [((sts,), (sts2,)), ((sts[0], sts[1]), (sts2[0], sts2[1]))]
+                for fa, fb in forms:
+                    v0 = core.call_impl(lambda: q(lambda: float(fn(*fa, MRTS='auto'))))
+                    v = core.call_impl(lambda: q(lambda: float(fn(*fb, MRTS='auto'))))
+                    ctx.check()
+                    want = v0
+                    if rev and neg and isinstance(v0, float):
+                        if not any(len(s_.spikes) for s_ in fa[0]) if len(fa) == 1 else not (len(fa[0].spikes) or len(fa[1].spikes)):
+                            continue    # all-empty input: known finding F13
+                        want = -v0
+                    if not feq(v, want):
+                        ctx.violate("%s relation fails for %s with MRTS='auto'" % (nm, name), name,
+                                    [TL, len(fa)], expected=want, got=v)
     # correspondence of the kernels on shifted / scaled recordings (t_start != 0, length != 1)
     cases = []
     rnd, g = ctx.space.random_pairs(n=400 if ctx.tier == "quick" else 5000)
@@ -871,6 +1139,20 @@ def check_sum(ctx, what, f, g, s, lim, integ, args):
                     expected=float(integ(f) + integ(g)), got=float(integ(sf)))
 
 
+def jitter(xs, r):
+    """a copy of the breakpoint list whose interior points are moved by +-2^-20 (some of them): a grid that
+    np.allclose / np.isclose call equal to the original although it is not"""
+    out = list(xs)
+    moved = False
+    for k in range(1, len(out) - 1):
+        if r.random() < 0.7:
+            out[k] = out[k] + r.choice([-1, 1]) * Fr(1, 2 ** 20)
+            moved = True
+    if not moved and len(out) > 2:
+        out[1] = out[1] + Fr(1, 2 ** 20)
+    return out
+
+
 @prop("C09")
 def c09(ctx):
     r = ctx.rng
@@ -895,6 +1177,18 @@ def c09(ctx):
     spec_vs_impl(ctx, [(120, c[1], 20, c[1]) for c in cases if c[0] == 20], "pwc add == pointwise-sum spec")
     spec_vs_impl(ctx, [(121, c[1], 21, c[1]) for c in cases if c[0] == 21], "pwl add == pointwise-sum spec")
     ctx.corr(cases, lambda rid, a: len(a[0]) + len(a[-2 if rid == 20 else -3]) >= 5)
+    # nearly equal grids (same number of breakpoints, interior points 2^-20 apart): every breakpoint of
+    # both operands must survive, with its own values
+    near = []
+    for xa, _ in all_bp_pairs(ctx)[:ctx.n(600 if ctx.tier == "quick" else 6000)]:
+        if len(xa) < 3:
+            continue
+        xb = jitter(xa, r)
+        near += [(20, [xa, vals(r, len(xa) - 1), xb, vals(r, len(xa) - 1)]),
+                 (21, [xa, vals(r, len(xa) - 1), vals(r, len(xa) - 1), xb, vals(r, len(xa) - 1), vals(r, len(xa) - 1)])]
+    spec_vs_impl(ctx, [(120, c[1], 20, c[1]) for c in near if c[0] == 20], "pwc add == pointwise-sum spec (nearly equal grids)")
+    spec_vs_impl(ctx, [(121, c[1], 21, c[1]) for c in near if c[0] == 21], "pwl add == pointwise-sum spec (nearly equal grids)")
+    ctx.corr(near, lambda rid, a: True)
     # histories of add / mul_scalar / copy with aliasing monitor
     hist_items = []
     nh = ctx.n(400 if ctx.tier == "quick" else 5000)
@@ -1113,6 +1407,53 @@ def c10(ctx):
                 ctx.nontrivial(("c10seq", kind, repr(log), core.enc([list(f0), list(g0)])))
     spec_vs_impl(ctx, quads, "integral/evaluation == exact definition (overlap integral, limits)")
     ctx.corr(cases, lambda rid, a: len(a[0]) >= 3)
+    # a list of times may hold the same time several times, in any order: every entry is evaluated like the
+    # single time (interior breakpoints: mean of the two limits, each time)
+    for _ in range(ctx.n(120 if ctx.tier == "quick" else 1500)):
+        for kind in ("pwc", "pwl"):
+            f0 = (gen.rand_pwc if kind == "pwc" else gen.rand_pwl)(r, 4, 8)
+            cls = ctx.ps.PieceWiseConstFunc if kind == "pwc" else ctx.ps.PieceWiseLinFunc
+            f = cls(*[np.array(core.fl(a), dtype=float) for a in f0])
+            xs = core.fl(f0[0])
+            pool = xs + sample_times(xs)
+            ts = [r.choice(pool) for _ in range(r.randint(2, 5))]
+            ts = ts + [ts[0]] + ([xs[1], xs[1]] if len(xs) > 2 else [])
+            r.shuffle(ts)
+            one = core.call_impl(lambda: [float(f(t)) for t in ts])
+            many = core.call_impl(lambda: [float(v) for v in f(ts)])
+            ctx.check()
+            ctx.nontrivial(("c10rep", kind, core.enc(list(f0)), repr(ts)))
+            if isinstance(one, core.Err) or not feq(one, many, 1e-12):
+                ctx.violate("%s: f([t, ...]) with repeated / unsorted times differs from the single-time values" % kind,
+                            kind + ".__call__", [list(f0), repr(ts)], expected=one, got=many)
+    # integer-typed breakpoints (bin edges from np.arange, Python ints) with non-integer values: every query
+    # and the plottable arrays equal those of the float-typed function
+    for _ in range(ctx.n(100 if ctx.tier == "quick" else 1000)):
+        k = r.randint(1, 4)
+        xi = [0] + sorted(r.sample(range(1, 9), k)) + [9]
+        for kind in ("pwc", "pwl"):
+            cls = ctx.ps.PieceWiseConstFunc if kind == "pwc" else ctx.ps.PieceWiseLinFunc
+            ys = [[r.choice([0.5, 1.5, -0.25, 2.75, 3.0]) for _ in range(len(xi) - 1)] for _ in range(1 if kind == "pwc" else 2)]
+            for mkx in (lambda: np.array(xi), lambda: list(xi)):
+                q = ctx.impl._quiet
+                ff = cls(np.array(xi, dtype=float), *[np.array(y) for y in ys])
+                try:
+                    fi = cls(mkx(), *[np.array(y) for y in ys])
+                except Exception as e:      # noqa
+                    ctx.violate("%s with integer-typed breakpoints cannot be built" % kind, kind, [xi, ys], got=repr(e))
+                    continue
+                ts = [0.0, 0.5, float(xi[1]), float(xi[1]) + 0.25, 8.75, 9.0]
+                for what, g_ in (("plottable", lambda h: [a.tolist() for a in h.get_plottable_data()]),
+                                 ("__call__", lambda h: [float(h(t)) for t in ts] + [float(v) for v in h(ts)]),
+                                 ("integral", lambda h: [float(h.integral()), float(h.integral((0.5, 7.25)))]),
+                                 ("avrg", lambda h: [float(h.avrg()), float(h.avrg((0.5, 7.25)))])):
+                    a = core.call_impl(lambda: q(lambda: g_(fi)))
+                    b = core.call_impl(lambda: q(lambda: g_(ff)))
+                    ctx.check()
+                    if not feq(a, b, 1e-12):
+                        ctx.violate("%s.%s: integer-typed breakpoints give a different result than float-typed ones" % (kind, what),
+                                    kind + "." + what, [xi, ys], expected=b, got=a)
+            ctx.nontrivial(("c10int", kind, repr(xi), repr(ys)))
     # integer-valued input (psth counts)
     for _ in range(ctx.n(100)):
         xs = gen.breakpoints(r, 3, 8)
@@ -1165,6 +1506,19 @@ def c11(ctx):
                     and feq([i1[0] + i2[0], i1[1] + i2[1]], i3)):
                 ctx.violate("integral of sum != sum of integrals on %r" % (spec,), "df.add/integral", a22,
                             expected=[i1, i2], got=i3)
+    # nearly equal event times (2^-20 apart, same number of entries): one entry per distinct time
+    for _ in range(ctx.n(300 if ctx.tier == "quick" else 3000)):
+        k = r.randint(1, 4)
+        x1 = [Z] + [Fr(i, 8) for i in sorted(r.sample(range(1, 8), k))] + [ONE]
+
+        def ent():
+            mp = [Fr(r.choice([1, 1, 2, 3])) for _ in range(k)]
+            y = [Fr(r.randint(0, int(m_))) for m_ in mp]
+            return [y[0]] + y + [y[-1]], [mp[0]] + mp + [mp[-1]]
+        (y1, m1), (y2, m2) = ent(), ent()
+        a22 = [x1, y1, m1, jitter(x1, r), y2, m2]
+        cases.append((22, a22))
+        quads.append((130, a22, 22, a22))
     spec_vs_impl(ctx, [q for q in quads if q[0] == 130], "discrete add == event-wise merge-sum",
                  proj=lambda v: [x[1:-1] for x in v])
     spec_vs_impl(ctx, [q for q in quads if q[0] != 130], "discrete integral == sum over events strictly inside")
@@ -1186,6 +1540,12 @@ def c12(ctx):
             cases += [(1, [eff(a), eff(b), Z, ONE, m]), (2, [eff(a), eff(b), Z, ONE, m, ri])]
             cases += [(rid, [a, b, Z, ONE, mt, m]) for rid in (6, 7, 8, 9, 12, 13, 14)]
             cases += [(10, [eff(a), eff(b), Z, ONE, m]), (11, [eff(a), eff(b), Z, ONE, m, ri])]
+            # the public scalar functions choose between the compiled single-pass routine and the fall-back
+            # themselves: every keyword must reach whichever branch is taken
+            mt2 = r.choice(maxtau_grid(g)[1:])
+            cases += [(54, [False, m, None, T(a), T(b)]), (55, [False, m, ri, None, T(a), T(b)]),
+                      (56, [False, mt2, m, None, T(a), T(b)]), (71, [False, ri, mt2, m, T(a), T(b)]),
+                      (74, [False, ri, mt2, m, T(a), T(b)])]
         ctx.corr(cases, pair_nt)
         if not ctx.cy:
             continue
@@ -1298,6 +1658,13 @@ def c13(ctx):
         cases.append((40, [l]))
         trs = [[[Fr(r.randint(-2, 10), 8) for _ in range(r.randint(0, 5))],
                 Fr(r.choice([0, 0, 1, -1]), 8), Fr(r.choice([8, 8, 7, 9]), 8)] for _ in range(r.randint(1, 4))]
+        if r.random() < 0.5:
+            # spikes on, just inside and just outside the common edges: 2^-21 is inside the filter's
+            # tolerance of 1e-6, 2^-19 is outside it
+            gs, ge = min(t[1] for t in trs), max(t[2] for t in trs)
+            for t in trs:
+                for _k in range(r.randint(0, 3)):
+                    t[0].append(r.choice([gs, ge]) + r.choice([0, 1, -1, 4, -4]) * Fr(1, 2 ** 21))
         cases.append((41, [trs]))
         quads.append((140, [trs], 41, [trs]))
         ctx.nontrivial(("c13", core.enc(trs)))
@@ -1307,13 +1674,35 @@ def c13(ctx):
         if isinstance(once, core.Err):
             ctx.violate("reconcile raises", "reconcile_spike_trains", [trs], got=once)
             continue
-        onceF = [[[Fr(x).limit_denominator(10 ** 6) for x in t[0]], Fr(t[1]).limit_denominator(10 ** 6),
-                  Fr(t[2]).limit_denominator(10 ** 6)] for t in once]
+        onceF = [[[Fr(x) for x in t[0]], Fr(t[1]), Fr(t[2])] for t in once]      # binary64 values are exact rationals
         twice = ctx.call(41, [onceF])
         if not feq(once, twice):
             ctx.violate("reconcile is not idempotent", "reconcile_spike_trains", [trs], expected=once, got=twice)
     ctx.corr(cases, lambda rid, a: True)
     spec_vs_impl(ctx, quads, "reconcile == declarative specification")
+    # trains recorded over different intervals: every list entry point reconciles the WHOLE list (common
+    # edges = smallest start, largest end), every two-train entry point the pair
+    hl, g = ctx.space.random_lists(n=200 if ctx.tier == "quick" else 2500)
+    cases = []
+    for L in ctx.part(hl):
+        m = r.choice(mrts_grid(g)[:3])
+        mt = r.choice(maxtau_grid(g))
+        ri = r.random() < 0.5
+        HL = []
+        for t in L:
+            lo = min(t + [Fr(1, 4)]) - Fr(r.choice([0, 0, 1, 2, 8]), 8)
+            hi = max(t + [Fr(3, 4)]) + Fr(r.choice([0, 0, 1, 2, 8]), 8)
+            HL.append([messy(r, t, g), lo, hi])
+        A, B = HL[0], HL[1]
+        cases += [(50, [True, m, A, B]), (51, [True, m, ri, A, B]), (52, [True, mt, m, A, B]), (53, [True, mt, m, A, B]),
+                  (54, [True, m, None, A, B]), (55, [True, m, ri, None, A, B]), (56, [True, mt, m, None, A, B]),
+                  (71, [True, True, mt, m, A, B]), (74, [True, True, mt, m, A, B]),
+                  (60, [True, m, HL, None]), (61, [True, m, ri, HL, None]), (62, [True, mt, m, HL, None]),
+                  (63, [True, mt, m, HL, None]), (64, [True, m, None, HL, None]), (65, [True, m, ri, None, HL, None]),
+                  (66, [True, mt, m, None, HL, None]), (67, [True, m, None, HL, None]), (68, [True, m, ri, None, HL, None]),
+                  (69, [True, mt, m, None, HL, None]), (72, [True, True, mt, m, HL, None]), (73, [True, mt, m, HL, None]),
+                  (75, [True, True, mt, m, HL, None]), (70, [True, mt, m, Fr(1, 2), HL])]
+    ctx.corr(cases, lambda rid, a: True)
     # every entry point: messy input == reconciled input with Reconcile=False; inputs untouched
     lists, g = ctx.space.random_lists(n=250 if ctx.tier == "quick" else 3000)
     lists = ctx.part(lists)
@@ -1644,16 +2033,28 @@ def c15(ctx):
                 ctx.violate("multivariate MRTS='auto' != explicit pooled threshold", name, [L], expected=ve, got=va)
             if not feq(v0, vn, 0.0):
                 ctx.violate("multivariate MRTS=0 != non-adaptive", name, [L], expected=vn, got=v0)
+            # the type of the number does not matter: an integer-typed threshold is that threshold
+            for mi in (0, r.choice([1, 2]), np.int64(1)):
+                vi = core.call_impl(lambda: q(lambda: f(sts, MRTS=mi)))
+                vf = core.call_impl(lambda: q(lambda: f(sts, MRTS=float(mi))))
+                ctx.check()
+                if not feq(vi, vf, 0.0):
+                    ctx.violate("integer-typed MRTS=%r gives a different result than MRTS=%r" % (mi, float(mi)), name, [L],
+                                expected=vf, got=vi)
             # with an index selection the code still pools the automatic threshold over the WHOLE list
             # (model: ModelAuto.auto_pool_multi; this is known finding F10 for property C14)
             if len(sts) >= 3 and name not in ("spike_directionality_values", "spike_directionality_matrix"):
                 sel = sorted(r.sample(range(len(sts)), 2))
                 vai = core.call_impl(lambda: q(lambda: f(sts, indices=sel, MRTS='auto')))
                 vei = core.call_impl(lambda: q(lambda: f(sts, indices=sel, MRTS=auto)))
+                auto_sel = float(default_thresh([sts[i] for i in sel]))
+                ves = core.call_impl(lambda: q(lambda: f(sts, indices=sel, MRTS=auto_sel)))
                 ctx.check()
-                if not feq(vai, vei, 1e-12):
-                    ctx.violate("MRTS='auto' with indices: threshold is not the one pooled over the whole list "
-                                "(model auto_pool_multi no longer describes the code)", name, [L, sel], expected=vei, got=vai)
+                # accepted: the pool of the selected trains (what the property asks for) or the pool of the whole
+                # list (what the code does today, known finding F10 of C14) - anything else is a violation
+                if not feq(vai, vei, 1e-12) and not feq(vai, ves, 1e-12):
+                    ctx.violate("MRTS='auto' with indices: the threshold is neither the one pooled over the selected trains "
+                                "nor the one pooled over the whole list", name, [L, sel], expected=[ves, vei], got=vai)
             if name in ("isi_distance", "spike_distance", "isi_distance_matrix", "spike_distance_matrix"):
                 w1 = core.call_impl(lambda: q(lambda: f(sts, MRTS=m1)))
                 w2 = core.call_impl(lambda: q(lambda: f(sts, MRTS=m2)))
@@ -1901,6 +2302,22 @@ def c17(ctx):
         if isinstance(k2, core.Err) or any(not set(b_[0]) <= set(a_[0]) for a_, b_ in zip(kept, k2)):
             ctx.violate("a higher threshold keeps a spike the lower one removed", "filter_by_spike_sync",
                         [False, mt, m, [thr, thr2], TL], expected=kept, got=k2)
+    # the "other N-1 trains" are the other list POSITIONS: the same object entered twice (reconciliation off,
+    # so the objects are used as given) counts like an equal copy
+    rl, g2 = ctx.space.random_lists(n=80 if ctx.tier == "quick" else 1000)
+    for L in ctx.part(rl):
+        sts = ctx.impl.trains([T(t) for t in L])
+        thr = float(Fr(r.randint(0, 3), 4))
+        same = [sts[0], sts[0]] + sts[1:]
+        copy = [sts[0], sts[0].copy()] + sts[1:]
+        for kwf in (dict(Reconcile=False), dict(Reconcile=False, max_tau=0.25), dict()):
+            x = core.call_impl(lambda: ps.filter_by_spike_sync(same, thr, return_removed_spikes=True, **kwf))
+            y = core.call_impl(lambda: ps.filter_by_spike_sync(copy, thr, return_removed_spikes=True, **kwf))
+            ctx.check()
+            ctx.nontrivial(("c17same", core.enc(L), thr, repr(sorted(kwf))))
+            if isinstance(x, core.Err) or not feq(x, y, 0.0):
+                ctx.violate("a train object entered twice is not treated like an equal copy at another position",
+                            "filter_by_spike_sync", [[T(t) for t in L], Fr(thr), repr(kwf)], expected=y, got=x)
     big = big_tau_pairs(ctx)
     cases += [(7, [a, b, Z, ONE, mt, m]) for a, b, mt, m in big]
     quads += [(103, [a, b, Z, ONE, mt, m], 7, [a, b, Z, ONE, mt, m]) for a, b, mt, m in big]
@@ -2130,6 +2547,17 @@ def c19(ctx):
             st3 = ps.SpikeTrain([0.5], e1)
             if (st3.t_start, st3.t_end) != (0.0, e1):
                 ctx.violate("scalar edge != [0, edge]", "SpikeTrain", repr(e1), got=(st3.t_start, st3.t_end))
+            # ... of any number type (numpy scalars, 0-d arrays, Python ints), also through the text parsers
+            e2 = float(r.randint(2, 60))
+            for mk in (np.float64, np.int64, np.float32, lambda v: np.array(v), int, lambda v: np.array([1.0, v]).max()):
+                ev = mk(e2)
+                got = core.call_impl(lambda: [float(x) for x in (lambda t: (t.t_start, t.t_end))(ps.SpikeTrain([0.5], ev))])
+                got2 = core.call_impl(lambda: [float(x) for x in (lambda t: (t.t_start, t.t_end))(
+                    ps.spike_train_from_string("0.5 1.0", ev))])
+                ctx.check()
+                if got != [0.0, e2] or got2 != [0.0, e2]:
+                    ctx.violate("scalar edge of type %s != [0, edge]" % type(ev).__name__, "SpikeTrain / spike_train_from_string",
+                                repr(ev), expected=[0.0, e2], got=[got, got2])
         # time series import
         cases = []
         for it in range(ctx.n(300 if ctx.tier == "quick" else 4000)):
